@@ -186,17 +186,19 @@ SetMasses(keep) ==
   /\ UNCHANGED <<layout, nacm, dsT, dsF, scd, taint>>
 
 (* in-place operations on the force constants, then rebuild                  *)
-InPlaceFC(name) ==
+(* (chg: the operation did change the content; it need not, e.g. a second   *)
+(* cutoff with the same radius)                                              *)
+InPlaceFC(name, chg) ==
   /\ HasFC
-  /\ held' = InPlace(held, "fc")
+  /\ held' = IF chg THEN InPlace(held, "fc") ELSE held
   /\ IF name \in Forget
        THEN dm' = DmFcInPlace /\ gv' = gv
        ELSE dm' = Rebuilt(nacm) /\ gv' = GvAfterRebuild
-  /\ last' = [op |-> name]
+  /\ last' = [op |-> name, chg |-> chg]
   /\ UNCHANGED <<layout, nacm, massS, massU, dsT, dsF, scd, cp, taint>>
-Symmetrize == InPlaceFC("Symmetrize")                           \* 1274-1305
-SymmetrizeSG == layout = "full" /\ InPlaceFC("SymmetrizeSG")    \* 1307-1333
-Cutoff == InPlaceFC("Cutoff")                                   \* 816-826
+Symmetrize(chg) == InPlaceFC("Symmetrize", chg)                           \* 1274-1305
+SymmetrizeSG(chg) == layout = "full" /\ InPlaceFC("SymmetrizeSG", chg)    \* 1307-1333
+Cutoff(chg) == InPlaceFC("Cutoff", chg)                                   \* 816-826
 
 (* ph.dataset = dict (596-612): deep copy, cache invalidated                 *)
 SetDataset(f, typ, keep) ==
@@ -336,7 +338,7 @@ OpNext ==
   \/ \E m \in {"wang", "gonze"}, keep \in BOOLEAN : SetNAC(m, keep)
   \/ ClearNAC
   \/ \E keep \in BOOLEAN : SetMasses(keep)
-  \/ Symmetrize \/ SymmetrizeSG \/ Cutoff
+  \/ \E chg \in BOOLEAN : Symmetrize(chg) \/ SymmetrizeSG(chg) \/ Cutoff(chg)
   \/ \E f \in BOOLEAN, typ \in {"t1", "t2"}, keep \in BOOLEAN : SetDataset(f, typ, keep)
   \/ SetDisplacements
   \/ \E keep \in BOOLEAN : SetForces(keep)
